@@ -294,7 +294,8 @@ func oraclePErr(c PErrCase) error {
 	l := se.Location
 	if l.Line < 1 || l.Column < 1 {
 		hx.Class("parser_error_location", "location_unset")
-		return nil // unset ({0,0} and {1,0} are the code base's "no position" values)
+		// the parse was given the position of every token: an error that names no position identifies nothing
+		return fmt.Errorf("%s: position-tracking parse reports %s without a location (%d:%d): %s", c.Kind, se.Code, l.Line, l.Column, firstLineOf(err))
 	}
 	hx.Class("parser_error_location", "location_set")
 	// candidate positions: start of every generated token and the end of input.
@@ -455,3 +456,14 @@ func genParserErrorPositions(rt *rapid.T) PErrCase {
 
 // FuzzParserErrorPositions: coverage-guided search over the same generator (thorough tier).
 func FuzzParserErrorPositions(f *testing.F) { perrCheck.Fuzz(f, genParserErrorPositions) }
+
+func firstLineOf(err error) string {
+	m := err.Error()
+	if i := strings.IndexByte(m, '\n'); i >= 0 {
+		m = m[:i]
+	}
+	if len(m) > 200 {
+		m = m[:200]
+	}
+	return m
+}
